@@ -132,6 +132,28 @@ CLAIMED = {
             'standard forms (humidity reference 0.0063 as in the code; the literature also quotes 0.00634)',
             'contract-based deductive verification with spec functions (AST->z3), plus a bounded sampled stand-in for EI_HCCO / SCOPE11',
             'DESIGN 2 C12'),
+    'C01': ('proof',
+            'Per-function contracts of the inventory: sum_total_emissions (every species total = trajectory sum + LTO modes + APU + '
+            'GSE for all 16 presence patterns of every species), get_trajectory_emissions (segment amount = index x segment fuel, '
+            'zero outside the accounting window of either mode, window fuel = difference of prefix sums, every kilogram counted '
+            'once for CO2/H2O by an inductive prefix-sum lemma proved as base + step, NO+NO2+HONO = NOx, SO2+SO4 = SOx, '
+            'non-negative), get_LTO_emissions (time in mode x fuel flow, mode zeroing), get_APU_emissions, get_GSE_emissions and '
+            'the wiring of compute_emissions (fuel-mass differences, total fuel burn = exactly the switched-on components, '
+            'life-cycle CO2). Options are symbolic; array lengths symbolic.',
+            'EI kernels by their C12 contracts (arrays of the trajectory length, non-negative, NOx speciation sums); floats as '
+            'reals; np.sum as prefix-sum functions with the induction schema trusted; APU non-negativity under the stated carbon '
+            'balance precondition',
+            'contract-based deductive verification: AST->z3 VCs of the real source, callee contracts, inductive lemmas',
+            'DESIGN 2 C01'),
+    'C11': ('proof',
+            'The twelve documented options are symbolic enum members / Booleans on the real EmissionsConfig object; the units of '
+            'C01 are explored over all feasible paths, which covers all 41 472 combinations by path conditions. Deciding clauses: '
+            'no KeyError / AttributeError / TypeError / failed assert on any path; every other exception is NotImplementedError / '
+            'RuntimeError whose message contains the method value; species switched off are absent or zero in the trajectory and '
+            'LTO parts; enabled_species equals the documented switches.',
+            'as C01; the option space is split over the three constant-species switches into 8 units run in parallel (every other '
+            'option symbolic inside each)',
+            'contract-based deductive verification: symbolic configuration, exceptional postconditions', 'DESIGN 2 C11'),
 }
 REASONS_TODO = 'check not built yet (work in progress; see DESIGN.md section 2)'
 
